@@ -42,4 +42,67 @@ PROPS = {
         explanation='categorize is verified for a symbolic code point against the real CATEGORY_CODES table; each of the 11 '
                     'tokenizers, next_token (incl. termination) and tokenize are verified against slice/offset contracts; '
                     'tokenize\'s postcondition is the partition statement of C19'),
+    'C06': dict(
+        select=lambda c: c.qual.split('.')[0] in ('category', 'tokens', 'reader', 'tex', '__init__') or
+        c.qual.startswith('utils.Buffer.') or c.qual.startswith('utils.CharToLineOffset') or c.qual.startswith('utils.Token.') or
+        c.qual in ('data.TexExpr.__init__', 'data.TexExpr.append', 'data.TexNode.__init__'),
+        level='proof',
+        bounded=['parse.py'],
+        lemmas=['the only exception types that can leave TexSoup() are those declared in the `raises` clauses of the closure '
+                '(EOFError from unclosed_env_handler, TypeError from read_arg, AssertionError from the two asserts of read_expr); '
+                'every other raise site (next(), attribute of None, indexing, KeyError, assert) is an obligation "unreachable"',
+                'termination: a decreases clause on every loop and a lexicographic (|T|-i, rank) measure on every call in the '
+                'mutually recursive readers'],
+        trusted_base=['Buffer representation map (C20)', 'TexArgs contracts used by the readers (verified under C18)',
+                      'constructor of TexText is summarised (contracts/data_c.py ctor_TexText)'],
+        assumptions=['interpreter recursion limit and memory are not modelled (C06 states nesting depth <= 40)',
+                     'wall-clock hangs are replaced by termination measures'],
+        explanation='exception-freedom and termination of every function reachable from TexSoup() for all inputs, both '
+                    'tolerance modes; the parse sweep is the bounded cross-check'),
+    'C08': dict(
+        select=lambda c: c.qual.split('.')[0] in ('reader', 'tex', '__init__') or
+        c.qual in ('data.TexExpr.__init__', 'data.TexExpr.append', 'data.TexCmd.__str__', 'data.TexEnv.__str__',
+                   'data.TexArgs.__str__', 'tokens.tokenize', 'category.categorize'),
+        level='other',
+        bounded=['parse.py'],
+        lemmas=['L08: read() ensures NW(str(root)) == NW(S) for a clean (no bare-token argument, every environment closed by '
+                'exactly \\end{name} after a tight \\begin{name}) strict parse of a source without NUL/DEL; with tight() instead of '
+                'clean() the serialisation equals S',
+                'M4 (trusted): the token texts concatenate to the source (from the partition postcondition of tokenize)',
+                'WFT (assumed, bounded-checked): structural tokens carry their literal text; a backslash token is followed by a name token'],
+        trusted_base=['ser(e) is defined as str(e): publication applies the verified __str__ contracts',
+                      'class invariant of published groups (begin + contents + end) used when a reader inspects args[0].string'],
+        assumptions=['the statement proved is conservation modulo ALL blank characters (NW) plus exactness under tight(); the '
+                     'property\'s finer clause (only whitespace directly before an argument opener may vanish) is checked bounded',
+                     'open findings D5, D6, D17, D18 are excluded by the definition of clean()/tight()'],
+        explanation='conservation clauses (exact-when-tight, conserves-non-blank) on every reader, composed through read_tex, '
+                    'tex.read and TexSoup'),
+    'C01': dict(
+        select=lambda c: c.qual.split('.')[0] in ('reader', 'tex', '__init__') or
+        c.qual in ('data.TexExpr.__init__', 'data.TexExpr.append', 'data.TexCmd.__str__', 'data.TexEnv.__str__',
+                   'data.TexArgs.__str__'),
+        level='other',
+        bounded=['parse.py'],
+        lemmas=['L01: TexSoup(S) returns and tight(root) ==> str(soup) == S (postcondition `exact` of TexSoup/read)'],
+        assumptions=['"parsing succeeds and the tree is tight on every well-formed document with adjacent arguments" quantifies over '
+                     'a grammar; it is checked bounded (construct-level enumeration), not proved',
+                     'node-level slices: the per-reader clause exact-when-tight gives str(node) == W(first,last); equality with the '
+                     'source slice at node.position follows from C13 and C19 (M4)'],
+        explanation='conditional theorem proved for all inputs; success/tightness on the grammar bounded'),
+    'C07': dict(
+        select=lambda c: c.qual.split('.')[0] in ('reader',),
+        level='other',
+        bounded=['parse.py'],
+        assumptions=['clause 1 (strict success implies identical tolerant result) and clause 2 are checked bounded only; the deductive '
+                     'part is: TypeError is raised by read_arg only in strict mode, strict returns imply closed groups '
+                     '(read_arg#strict-implies-closed), read_env consumes the closer only when the names match'],
+        explanation='bounded product run strict/tolerant over the construct-level enumeration plus reader clauses'),
+    'C16': dict(
+        select=lambda c: c.qual in ('data.TexCmd.__str__', 'data.TexEnv.__str__', 'data.TexArgs.__str__'),
+        level='other',
+        bounded=['parse.py'],
+        assumptions=['the fixed-point property composes parse and serialise twice; only the supporting facts (serialisers print '
+                     'arguments adjacent to the name; exactness under tight()) are deductive, the property itself is bounded'],
+        explanation='bounded: all strings of <= 3/4 atoms over a 33-atom construct alphabet and <= 4/5 over 13 atoms, prefixes and '
+                    'deletions of sample documents, random longer strings'),
 }
